@@ -16,7 +16,7 @@ from common import Rng, VERIF, sh, tail
 LEVEL = "proof"
 REQUIRED = ["C14_inv_reachable", "C14_no_panic", "C14_run_refines", "C14_union", "C14_difference",
             "C14_height_log", "C14_persistence", "C14_join_inv", "C14_insert", "C14_remove",
-            "C14_iter_sorted", "C14_len_refines"]
+            "C14_iter_sorted", "C14_len_refines", "C14_inv_b_sound", "C14_inv_b_complete"]
 
 # opcode -> (coq ctor, arg kinds)  h=handle k=key v=value d=delta s=selector
 OPS = {
